@@ -672,3 +672,30 @@ func Replay(w *world.World, sc *Scenario, rootName string, labels []string, log 
 	}
 	return out
 }
+
+
+// EnabledAfter lists the labels enabled after replaying the trace (debug aid for writing traces by hand).
+func EnabledAfter(w *world.World, sc *Scenario, rootName string, labels []string) []string {
+	var root *Root
+	for i := range sc.Roots {
+		if sc.Roots[i].Name == rootName {
+			root = &sc.Roots[i]
+		}
+	}
+	f := BuildRoot(w, *root, sc.Rewards)
+	s := &State{F: f, G: sc.Oracle.InitGhost(w, w.View(f))}
+	for _, l := range labels {
+		for _, op := range sc.Ops(w, w.View(s.F), s) {
+			if op.Label == l {
+				op := op
+				ctx, write := w.Ctx(s.F)
+				Apply(w, s.F, ctx, write, &op, sc.Rewards, nil)
+			}
+		}
+	}
+	var out []string
+	for _, op := range sc.Ops(w, w.View(s.F), s) {
+		out = append(out, op.Label)
+	}
+	return out
+}
